@@ -64,6 +64,10 @@ TYPE_POOL = ['b', 'a', 'B', 'a10', 'a2', 'c d', 'Z', '10', '9', 'aa', 'é']
 def gen_unit(rng, i):
     n_leaves = rng.randint(2, 8) if i % 5 else rng.randint(2, 3)
     n_genes = rng.randint(3, 14) if i % 7 else rng.randint(1, 3)
+    flat = (i % 6 == 3)
+    if flat:
+        # room for cancellation in one-pass variance formulas
+        n_genes = rng.randint(8, 40)
     n_cells = rng.randint(1, 5)
     style = rng.choice(['float', 'float', 'int', 'dyadic'])
 
@@ -99,6 +103,26 @@ def gen_unit(rng, i):
     if rng.random() < 0.2:
         refs[rng.randrange(n_leaves)] = [1.0] * n_genes
         label.append('const-centroid')
+    if flat:
+        import math
+        vals = [0.1, 1.0 / 3.0, 7.3, math.log2(1.0 + 1.0e6 / rng.randint(2, 5000)),
+                math.log2(1.0 + 1.0e6 / rng.randint(2, 40))]
+        for c in range(n_cells):
+            v = rng.choice(vals)
+            query[c] = [v] * n_genes
+            if rng.random() < 0.4:
+                # constant on most drawn subsets only
+                for _ in range(rng.randint(1, 2)):
+                    query[c][rng.randrange(n_genes)] = val()
+        if i % 12 == 3:
+            # flat CLUSTER profile instead of flat cells (both at once is the
+            # proposed finding C02-flat-cell-vs-flat-cluster: two constant rows
+            # with inexact float means correlate at +-1 in the code)
+            query = [[val() for _ in range(n_genes)] for _ in range(n_cells)]
+            refs[rng.randrange(n_leaves)] = [rng.choice(vals)] * n_genes
+        else:
+            refs = [r if len(set(r)) > 1 else [val() for _ in r] for r in refs]
+        label.append('flat-nonzero')
     if rng.random() < 0.25 and n_leaves > 2:
         a, b = rng.sample(range(n_leaves), 2)
         refs[b] = list(refs[a])
@@ -279,8 +303,23 @@ def check_unit(ctx, case):
             ctx.evaluations += 1
             if eu.fragile_constant(query[c, s]) or \
                     eu.fragile_constant(refs[:, s]):
+                # a constant row whose float mean is inexact: the exact
+                # correlation is 0 (norm := 1 rule); the code's value is
+                # rounding noise around 0 and must be finite
                 ctx.count('unit:fragile-constant-row')
-                continue
+            if not np.isfinite(cc[it][c]):
+                violation('nearest/corr-not-finite',
+                          'cell %d iteration %d: reported correlation %r '
+                          '(query row on the subset: %r)'
+                          % (c, it, cc[it][c], query[c, s].tolist()),
+                          cell=c, subset=s)
+                return
+            if np.ptp(query[c, s]) == 0 and abs(cc[it][c]) > eu.REL:
+                violation('nearest/constant-row-not-zero',
+                          'cell %d iteration %d: constant row, reported '
+                          'correlation %r' % (c, it, cc[it][c]), cell=c,
+                          subset=s)
+                return
             fr = eu.float_corr(refs[:, s], query[c, s])
             j = nn[it][c]
             if not (0 <= j < n_leaves):
